@@ -6,7 +6,8 @@ CHECK = {
     "units": [
         unit("leasefaults", "vault", ["vault/c06_test.go", "vault/c06x_test.go", "vault/c04_test.go"], "^TestVerif_C06_LeaseFaults$",
              quick={"checks": 3, "shards": 1, "cap": 900},
-             thorough={"checks": 2, "shards": 16, "cap": 3000}),
+             thorough={"checks": 2, "shards": 16, "cap": 3000},
+             flaky_is_violation=True),
         unit("schedules", "vault", ["vault/c06_test.go", "vault/c06x_test.go", "vault/c06sched_test.go", "vault/c04_test.go"], "^TestVerif_C06_Schedules$",
              quick={"checks": 150, "shards": 1, "cap": 900},
              thorough={"checks": 1000, "shards": 16, "cap": 3000},
